@@ -516,6 +516,7 @@ func runC08(c *eng.Ctx) {
 
 	// ---- the leader's log of a family is dropped only when EVERY follower's group is drained --------------------------------------
 	c.Rule("GUARD", "replica.partition.IsExpire{every group drained}", func() { expiryNeedsEveryGroupDrained(c) })
+	c.Rule("PROV", "pkg/queue.consumerGroup.IsEmpty{appended <= acknowledged}", func() { groupEmptyMeansAcknowledged(c) })
 
 	// ---- one cached partition per log directory ---------------------------------------------------------------------------------------
 	c.Rule("LAYOUT", "replica.writeAheadLog.GetOrCreatePartition{cache key names what the log directory names}", func() {
